@@ -55,8 +55,70 @@ def assoc_subscripts(fn):
                         for lp_, rhs_, node_ in consumption.assignment_targets(ir.stmts(fn["body"])):
                             if lp_ and len(lp_) == 1 and lp_[0].endswith("#%s" % rid):
                                 is_write = True
+                        for c_ in ir.calls_in(fn["body"]):
+                            if c_.get("k") == "MCall" and callee_name(c_) in ("swap", "assign", "clear", "insert", "emplace") and path(c_.get("recv")) and \
+                                    len(path(c_["recv"])) == 1 and path(c_["recv"])[0].endswith("#%s" % rid):
+                                is_write = True
                     out.append((n, is_write, g, parents, loops))
     return out
+
+
+def rejects_any_difference(f):
+    """The formula is true exactly when one of the three version members differs (for some setting of the atoms that do not
+    speak about versions - `!first` - and never true otherwise): decided by its truth table over the three equalities."""
+    import itertools
+    vers = {}
+    others = set()
+
+    def atoms(x):
+        if not isinstance(x, tuple) or not x:
+            return
+        if x[0] in ("and", "or"):
+            for y in x[1:]:
+                atoms(y)
+        elif x[0] == "not":
+            atoms(x[1])
+        elif x[0] == "cmp" and x[1] in ("==", "!=") and any(m in str(x[2]) + str(x[3]) for m in ("m_major_format_version", "m_minor_format_version", "m_private_version")):
+            m = [m for m in ("m_major_format_version", "m_minor_format_version", "m_private_version") if m in str(x[2]) and m in str(x[3])]
+            if len(m) == 1:
+                vers[(x[2], x[3])] = m[0]
+            else:
+                others.add(x)
+        elif x[0] not in ("T", "F"):
+            others.add(x)
+    atoms(f)
+    if sorted(set(vers.values())) != ["m_major_format_version", "m_minor_format_version", "m_private_version"]:
+        return False
+
+    def ev(x, eq, oth):
+        if x[0] == "T":
+            return True
+        if x[0] == "F":
+            return False
+        if x[0] == "and":
+            return all(ev(y, eq, oth) for y in x[1:])
+        if x[0] == "or":
+            return any(ev(y, eq, oth) for y in x[1:])
+        if x[0] == "not":
+            return not ev(x[1], eq, oth)
+        if x[0] == "cmp" and (x[2], x[3]) in vers:
+            same = eq[vers[(x[2], x[3])]]
+            return same if x[1] == "==" else not same
+        return oth[x]
+    names = ["m_major_format_version", "m_minor_format_version", "m_private_version"]
+    others = sorted(others, key=repr)
+    exact = False
+    for ovals in itertools.product([False, True], repeat=len(others)):
+        oth = dict(zip(others, ovals))
+        table = {}
+        for evals in itertools.product([False, True], repeat=3):
+            table[evals] = ev(f, dict(zip(names, evals)), oth)
+        want = {evals: not all(evals) for evals in table}
+        if table == want:
+            exact = True
+        elif any(table.values()):
+            return False
+    return exact
 
 
 def check(run):
@@ -240,6 +302,26 @@ def check(run):
                 if lp_ and len(lp_) == 1 and lp_[0].startswith("l:") and rp_ and rp_[-1] == "m_file_preamble":
                     ref_assign = (lp_, node_, g)
         if ref_assign is None:
+            # member by member: the three version members of a local preamble from reader.m_file_preamble, under one guard
+            mw = {}
+            for st, g, loops_ in ir.guarded_statements(p1.get("body"), env):
+                if st.get("k") in ("IfCond", "LoopHead", "SwitchHead"):
+                    continue
+                for lp_, rhs_, node_ in consumption.assignment_targets([st]):
+                    rp_ = path(unwrap_all_casts(rhs_))
+                    if lp_ and len(lp_) == 2 and lp_[0].startswith("l:") and rp_ and len(rp_) >= 2 and rp_[-2] == "m_file_preamble" and rp_[-1] == lp_[1] and \
+                            lp_[1] in ("m_major_format_version", "m_minor_format_version", "m_private_version"):
+                        mw[lp_[1]] = (lp_[:1], node_, g)
+            if len(mw) == 3 and len(set(repr(v[2]) for v in mw.values())) == 1 and len(set(v[0] for v in mw.values())) == 1:
+                ref_assign = mw["m_private_version"]
+            elif mw:
+                run.ob("R18.3", "cdns_merge:reference-from-first-readable", False, mg, list(mw.values())[0][1].get("l", 0),
+                       "the reference preamble is taken member by member from the first readable input, but only %s: the members left out keep "
+                       "the library defaults, and later inputs are compared with (and the output announces) those" % ", ".join(sorted(mw)))
+                ref_assign = "reported"
+        if ref_assign == "reported":
+            pass
+        elif ref_assign is None:
             run.ob("R18.3", "cdns_merge:reference-from-first-readable", None, mg, p1.get("l", 0), "no `preamble = reader.m_file_preamble` found in the first pass")
         else:
             lp_, node_, g = ref_assign
@@ -268,6 +350,8 @@ def check(run):
             if "m_major_format_version" in txt:
                 ver = (n_, txt)
     ok = ver is not None and all(m in ver[1] for m in ("m_major_format_version", "m_minor_format_version", "m_private_version")) and "&&" not in ver[1]
+    if not ok and ver is not None:
+        ok = rejects_any_difference(ir.cond(ver[0]["cond"], env))
     run.ob("R18.3", "cdns_merge:version-check", ok, mg, ver[0].get("l", 0) if ver else mg["line"],
            "major, minor and private version are all compared; any mismatch rejects the input" if ok else
            "the version check must reject an input when any of major/minor/private version differs")
